@@ -895,12 +895,15 @@ class Desugar(ast.NodeTransformer):
             if isinstance(st, ast.For) and isinstance(st.iter, ast.Name) and isinstance(st.target, ast.Name) and not st.orelse and getattr(self, 'loads', None) is not None \
                     and self.loads.get(st.iter.id, 0) == 1 and self.stores.get(st.iter.id, 0) == 1:
                 gdef = [(k_, o) for k_, o in enumerate(out) if isinstance(o, ast.Assign) and len(o.targets) == 1 and isinstance(o.targets[0], ast.Name)
-                        and o.targets[0].id == st.iter.id and isinstance(o.value, ast.GeneratorExp) and len(o.value.generators) == 1 and not o.value.generators[0].ifs]
+                        and o.targets[0].id == st.iter.id and isinstance(o.value, (ast.GeneratorExp, ast.ListComp)) and len(o.value.generators) == 1]
                 if len(gdef) == 1:
                     k_, o = gdef[0]
                     g = o.value.generators[0]
                     bind = ast.Assign(targets=[ast.Name(id=st.target.id, ctx=ast.Store())], value=o.value.elt)
-                    loop = ast.For(target=g.target, iter=g.iter, body=[bind] + list(st.body), orelse=[])
+                    inner_: List[ast.stmt] = [bind] + list(st.body)
+                    for cnd in reversed(g.ifs):
+                        inner_ = [ast.If(test=cnd, body=inner_, orelse=[])]
+                    loop = ast.For(target=g.target, iter=g.iter, body=inner_, orelse=[])
                     for x in ast.walk(bind):
                         if not hasattr(x, 'lineno'):
                             ast.copy_location(x, st)
